@@ -30,6 +30,18 @@ pub struct Cfg {
 fn data(len: usize) -> Vec<u8> {
     (0..len).map(|i| (i * 7 + 1) as u8).collect()
 }
+fn op_code(o: &Op) -> String {
+    match o {
+        Op::Req(n) => format!("r{}", n),
+        Op::ByteAt(n) => format!("b{}", n),
+        Op::Adv(n) => format!("a{}", n),
+        Op::AdvAll => "A".into(),
+        Op::AdvTooFar => "X".into(),
+        Op::SetMark => "m".into(),
+        Op::More => "M".into(),
+        Op::CheckIo => "c".into(),
+    }
+}
 fn op_str(ops: &[Op]) -> String {
     ops.iter()
         .map(|o| match o {
@@ -66,6 +78,21 @@ fn parse_ops(s: &str) -> Vec<Op> {
 
 /// runs one sequence; returns the first violated statement
 pub fn run_seq(cfg: Cfg, ops: &[Op], prop: &str) -> Option<(String, String)> {
+    set_case_with(|s| {
+        use std::fmt::Write;
+        let _ = write!(s, "C05 the reader operation terminates\x1freader {:?} operations ", cfg);
+        for o in ops {
+            let _ = write!(s, "{:?} ", o);
+        }
+        let _ = write!(s, "\x1fseq\x1e");
+        for (i, o) in ops.iter().enumerate() {
+            let _ = write!(s, "{}{}", if i > 0 { "," } else { "" }, op_code(o));
+        }
+        let _ = write!(s, "\x1e{}\x1e{}", cfg.len, cfg.bufreader.map(|x| x as i64).unwrap_or(-1));
+        for a in cfg.sched.args() {
+            let _ = write!(s, "\x1e{}", a);
+        }
+    });
     let all = prop == "all";
     let c02 = all || prop == "C02" || prop == "C14";
     let c09 = all || prop == "C09";
@@ -281,6 +308,7 @@ pub fn suite(prop: &str, tier: &str, seed: u64) -> Report {
     let all = prop == "all";
     let n = if tier == "thorough" { 5 } else { 4 };
     let cfgs = configs();
+    start_watchdog(20);
     if all || prop == "C02" || prop == "C09" || prop == "C14" {
         for cfg in &cfgs {
             set_current(&format!("reader cfg {:?}", cfg));
